@@ -135,6 +135,16 @@ fn bdd_counts<'a, S: OSr, P: DDNNFPtr<'a> + Into<BddPtr<'a>>>(ctx: &mut Ctx, rng
     check_count(ctx, p.neg(), &unsmoothed(&t.not(), &w2, order), &w2, "wmc.bdd.unsmoothed_neg", info, nt);
 }
 
+fn smoothed_counts<'a, S: OSr, P: DDNNFPtr<'a>>(ctx: &mut Ctx, rng: &mut Rng, sm: P, t: &Tt, info: &Value) {
+    let nt = !t.is_trivial();
+    for round in 0..3 {
+        let w = weights::<S>(t.n, round == 0, rng);
+        check_count(ctx, sm, &full_sum(t, &w), &w, "wmc.bdd.smoothed", info, nt);
+        check_count(ctx, sm.neg(), &full_sum(&t.not(), &w), &w, "wmc.bdd.smoothed_neg", info, nt);
+    }
+    ctx.count("smoothed_diagrams_counted", 1);
+}
+
 fn bdd_case(ctx: &mut Ctx, rng: &mut Rng) {
     let n = rng.range(1, 7);
     let (kind, t) = interesting_function(n, rng);
@@ -156,6 +166,14 @@ fn bdd_case(ctx: &mut Ctx, rng: &mut Rng) {
         }
         let info = json!({"kind": kind, "function": t.hex(), "order": cfg.order, "diagram": bdd_canon_string(p)});
         for_all_semirings!(bdd_counts, ctx, rng, p, &t, &cfg.order, &info);
+        // a smoothed BDD (nodes with identical children) is also a diagram the library
+        // produces: any weights, counted repeatedly with the same semiring type
+        let sm = b.smooth_(p, n);
+        if w.tt(sm) == t {
+            let sinfo = json!({"kind": kind, "function": t.hex(), "order": cfg.order, "smoothed": bdd_canon_string(sm)});
+            for_all_semirings!(smoothed_counts, ctx, rng, sm, &t, &sinfo);
+            check_evaluate(ctx, sm, &t, "wmc.bdd.smoothed.evaluate", &sinfo);
+        }
         check_evaluate(ctx, p, &t, "wmc.bdd.evaluate", &info);
         check_evaluate(ctx, p.neg(), &t.not(), "wmc.bdd.evaluate", &info);
         if ctx.wants_sample() {
